@@ -3,6 +3,7 @@ import QmiModel.Lemmas.C20BatchGet
 import QmiModel.Lemmas.C20Parse
 import QmiModel.Lemmas.C20Touch
 import QmiModel.Lemmas.C20Case
+import QmiModel.Lemmas.C20SetGet
 /-!
 # C20 — ADwin parameter names bind one-to-one; batch access equals single access
 
@@ -20,6 +21,8 @@ assignments / device states — induction over the lists, no bounds.
 | batch write ≡ one at a time                                 | `batch_set_eq_single`, `start_with_params_eq_single`    |
 | batch read ≡ one at a time, same values                     | `batch_get_eq_single`, `batch_get_eq_single_on_parsed_program`; outside the set-of-names domain: `batch_get_any_names`, `batch_get_drops_repeated_spelling`; error paths: second halves of `batch_set_eq_single` / `batch_get_eq_single` |
 | touches exactly the bound registers                         | `touches_exactly_bound_registers`                       |
+| through the real driver layer; registers that do not exist  | `validated_accessors_eq_library_semantics`, `batch_eq_single_validated`, `nonexistent_register_refused`, `set_then_get` |
+| tables configured by hand; process start                   | `config_table_spec`, `start_with_params_eq_single`, `start_with_params_touches_every_parameter` |
 | parsing yields a result                                     | `parse_terminates` (unconditional, ≤ `length fs + 1` opens), `include_cycle_parsed_once` |
 -/
 namespace QmiModel.Adbasic
@@ -604,12 +607,12 @@ private theorem analyze_param_keys_nodup {syms : List Sym} {b : Binding} (h : an
   rw [ep]
   exact (loopCls_ok _ syms binv_empty hp).1.nodup
 
-/-- **name_denotes_one_register.** The parser compares names with `.upper()`, `AdwinProcess` resolves them
-with `.lower()`.  For an accepted program the two agree: whatever spelling `name` the caller uses, the
-case-insensitive look-up returns the register of *the* table entry that equals `name` ignoring case — there
-is exactly one candidate. -/
+/-- **name_denotes_one_register** (full strength since fix 5ae01c1: no ASCII hypothesis).  The parser
+compares names with `.upper()` and so does `AdwinProcess` now.  For an accepted program: whatever spelling
+`name` the caller uses, the case-insensitive look-up returns the register of *the* table entry that equals
+`name` ignoring case — there is exactly one candidate, on the whole modelled alphabet. -/
 theorem name_denotes_one_register (syms : List Sym) (b : Binding) (h : analyze syms = .ok b)
-    (name key : Str) (d : Desc) (hk : dictGet b.param key = some d) (hl : lower name = lower key) :
+    (name key : Str) (d : Desc) (hk : dictGet b.param key = some d) (hl : upper name = upper key) :
     lookupCI b.param name = some d := by
   obtain ⟨one, _, _, _⟩ := binding_injective syms b h
   have hnd := analyze_param_keys_nodup h
@@ -617,17 +620,27 @@ theorem name_denotes_one_register (syms : List Sym) (b : Binding) (h : analyze s
   obtain ⟨d', hd'⟩ := Option.isSome_iff_exists.1 hsome
   obtain ⟨key', hm, hl'⟩ := lookupCI_some b.param name d' hd'
   have hk' := dictGet_of_mem_nodup b.param key' d' hnd hm
-  have : upper key' = upper key := (upper_eq_iff_lower_eq key' key).2 (hl'.symm.trans hl)
-  have hkey := (one key' key d' d hk' hk).1 this
+  have hkey := (one key' key d' d hk' hk).1 (hl'.symm.trans hl)
   subst hkey
   rw [hd', ← hk', hk]
+
+/-- historical example (constants; the input of the repaired finding
+`resolve:own-spelling-denotes-other-register:non-ascii`): U+212A KELVIN SIGN lower-cases to `k` but is its own
+upper case.  `PAR_K Par_1` (Kelvin sign) and `PAR_k Par_2` are both accepted; each spelling now resolves to its own
+register. -/
+example :
+    (match analyze [⟨"m.bas".toList, 1, "PAR_".toList ++ [Char.ofNat 0x212A], "Par_1".toList⟩,
+                    ⟨"m.bas".toList, 2, "PAR_k".toList, "Par_2".toList⟩] with
+      | .ok b => lookupCI b.param "k".toList == some (.par 2) && lookupCI b.param "K".toList == some (.par 2) &&
+                 lookupCI b.param [Char.ofNat 0x212A] == some (.par 1)
+      | .error _ => false) = true := by decide +kernel
 
 /-- **names_resolve_injectively.** Under the binding of an accepted program, names that differ ignoring case
 and are bound denote different registers — the hypothesis of `batch_get_eq_single` holds for every *set* of
 names. -/
 theorem names_resolve_injectively (syms : List Sym) (b : Binding) (h : analyze syms = .ok b) (names : List Str)
     (hb : ∀ n ∈ names, (lookupCI b.param n).isSome)
-    (hci : ∀ n1 ∈ names, ∀ n2 ∈ names, lower n1 = lower n2 → n1 = n2) :
+    (hci : ∀ n1 ∈ names, ∀ n2 ∈ names, upper n1 = upper n2 → n1 = n2) :
     ∀ n1 ∈ names, ∀ n2 ∈ names, lookupCI b.param n1 = lookupCI b.param n2 → n1 = n2 := by
   obtain ⟨one, _, _, _⟩ := binding_injective syms b h
   have hnd := analyze_param_keys_nodup h
@@ -647,13 +660,233 @@ and order): the batch read returns exactly what reading one at a time returns an
 theorem batch_get_eq_single_on_parsed_program (syms : List Sym) (b : Binding) (h : analyze syms = .ok b)
     (dv : Dev) (names : List Str)
     (hb : ∀ n ∈ names, (lookupCI b.param n).isSome)
-    (hci : ∀ n1 ∈ names, ∀ n2 ∈ names, lower n1 = lower n2 → n1 = n2) :
+    (hci : ∀ n1 ∈ names, ∀ n2 ∈ names, upper n1 = upper n2 → n1 = n2) :
     ∃ dvB resB dvF resF,
       getParMultiple b.param dv names = ⟨dvB, .ok resB⟩ ∧ getFold b.param names dv [] = ⟨dvF, .ok resF⟩ ∧
       SameRegs dvB dv ∧ SameRegs dvF dv ∧ (∀ k, dictGet resB k = dictGet resF k) :=
   let ⟨dvB, resB, dvF, resF, h1, h2, h3, h4, h5, _⟩ :=
     (batch_get_eq_single b.param dv names).1 hb (names_resolve_injectively syms b h names hb hci)
   ⟨dvB, resB, dvF, resF, h1, h2, h3, h4, h5⟩
+
+/-! ## 4b. The validating driver (`Adwin_Base`), registers that do not exist, write-then-read -/
+
+/-- **validated_accessors_eq_library_semantics.** `Adwin_Base` validates its arguments (Par/FPar index in
+1..80, Data index in 1..200, first element ≥ 1, integer dtype for integer arrays) before calling the ADwin
+library.  On names bound to registers that pass (`NamesOk`) and values that fit the array type (`ValuesOk`)
+the validated accessors — batch and single — are *equal* to the unvalidated ones, so every theorem of
+section 3 holds verbatim for them (`batch_eq_single_validated`). -/
+theorem validated_accessors_eq_library_semantics (b : Dict Str Desc) (ty : Nat → Bool) (dv : Dev) :
+    (∀ names, NamesOk b names →
+      getParMultipleC b dv names = getParMultiple b dv names ∧
+      ∀ res, getFoldC b names dv res = getFold b names dv res) ∧
+    (∀ params, NamesOk b (params.map Prod.fst) → ValuesOk b ty params →
+      setParMultipleC b ty dv params = setParMultiple b dv params ∧
+      setFoldC b ty params dv = setFold b params dv) :=
+  ⟨fun names h => ⟨getParMultipleC_eq b dv names h, fun res => getFoldC_eq b names dv res h⟩,
+   fun params h hv => ⟨setParMultipleC_eq b ty dv params h hv, setFoldC_eq b ty params dv h hv⟩⟩
+
+/-- **batch_eq_single_validated.** Batch ≡ one-at-a-time through the real driver layer: existing registers,
+well-typed values, any assignment list (write) / any set of bound names (read). -/
+theorem batch_eq_single_validated (b : Dict Str Desc) (ty : Nat → Bool) (dv : Dev) :
+    (∀ params dvF, NamesOk b (params.map Prod.fst) → ValuesOk b ty params →
+      setFoldC b ty params dv = ⟨dvF, .ok ()⟩ →
+      ∃ dvB, setParMultipleC b ty dv params = ⟨dvB, .ok ()⟩ ∧ SameRegs dvB dvF) ∧
+    (∀ names, NamesOk b names → (∀ n ∈ names, (lookupCI b n).isSome) →
+      (∀ n1 ∈ names, ∀ n2 ∈ names, lookupCI b n1 = lookupCI b n2 → n1 = n2) →
+      ∃ dvB resB dvF resF,
+        getParMultipleC b dv names = ⟨dvB, .ok resB⟩ ∧ getFoldC b names dv [] = ⟨dvF, .ok resF⟩ ∧
+        SameRegs dvB dv ∧ SameRegs dvF dv ∧ (∀ k, dictGet resB k = dictGet resF k)) := by
+  constructor
+  · intro params dvF h hv hF
+    rw [setFoldC_eq b ty params dv h hv] at hF
+    rw [setParMultipleC_eq b ty dv params h hv]
+    exact (batch_set_eq_single b dv params).1 dvF hF
+  · intro names h hb hinj
+    rw [getParMultipleC_eq b dv names h, getFoldC_eq b names dv [] h]
+    obtain ⟨dvB, resB, dvF, resF, h1, h2, h3, h4, h5, _⟩ := (batch_get_eq_single b dv names).1 hb hinj
+    exact ⟨dvB, resB, dvF, resF, h1, h2, h3, h4, h5⟩
+
+/-- **nonexistent_register_refused.** The parser accepts `Par_0`, `FPar_81`, `Data_201`, `Data_x[0]` …
+(it knows nothing about the device).  Such a name denotes no hardware register — and it never denotes
+*another* one: every access through it is refused with an exception before any device call, leaving the
+registers and the access log exactly as they were. -/
+theorem nonexistent_register_refused (b : Dict Str Desc) (ty : Nat → Bool) (dv : Dev) (n : Str) (r : Desc)
+    (hl : lookupCI b n = some r) (hr : regOk r = false) :
+    getParC b dv n = ⟨dv, .error .valueError⟩ ∧
+    ∀ v, (setParC b ty dv n v).dev = dv ∧ ∃ x, (setParC b ty dv n v).res = .error x := by
+  constructor
+  · simp [getParC, hl, hr]
+  · intro v
+    unfold setParC
+    rw [hl]
+    cases r with
+    | par i =>
+      simp only [regOk] at hr
+      cases v with
+      | flt x => exact ⟨rfl, _, rfl⟩
+      | int x => simp only [hr]; exact ⟨rfl, _, rfl⟩
+    | fpar i => simp only [regOk] at hr; simp only [hr]; exact ⟨rfl, _, rfl⟩
+    | elem d e => simp only [hr, Bool.false_and]; exact ⟨rfl, _, rfl⟩
+
+example : regOk (.par 0) = false ∧ regOk (.fpar 81) = false ∧ regOk (.elem 201 1) = false ∧
+    regOk (.elem 5 0) = false ∧ regOk (.par 80) = true ∧ regOk (.elem 200 1) = true := by decide
+
+/-- **set_then_get.** After a successful batch write in which every register is assigned by one pair
+(a set of names under a one-to-one binding), every register holds the value given for its name, and a
+batch read of the same names returns exactly the values written. -/
+theorem set_then_get (b : Dict Str Desc) (dv dvB : Dev) (params : List (Str × Val))
+    (hinj : ∀ p ∈ params, ∀ q ∈ params, lookupCI b p.1 = lookupCI b q.1 → p = q)
+    (h : setParMultiple b dv params = ⟨dvB, .ok ()⟩) :
+    (∀ nv ∈ params, ∀ r, lookupCI b nv.1 = some r → dvB.readReg r = nv.2) ∧
+    ((∀ nv ∈ params, (lookupCI b nv.1).isSome) →
+      ∃ dvG resG, getParMultiple b dvB (params.map Prod.fst) = ⟨dvG, .ok resG⟩ ∧ SameRegs dvG dvB ∧
+        ∀ nv ∈ params, dictGet resG nv.1 = some nv.2) := by
+  -- the fold cannot have failed, or the batch would have failed too
+  have hfold : ∃ dvF, setFold b params dv = ⟨dvF, .ok ()⟩ := by
+    cases hf : setFold b params dv with
+    | mk dvF res =>
+      cases res with
+      | ok u => exact ⟨dvF, rfl⟩
+      | error x =>
+        obtain ⟨dvB', hB, _⟩ := (batch_set_eq_single b dv params).2 dvF x hf
+        rw [hB] at h
+        injection h with _ h2
+        simp at h2
+  obtain ⟨dvF, hF⟩ := hfold
+  obtain ⟨dvB', hB, hsame⟩ := (batch_set_eq_single b dv params).1 dvF hF
+  rw [hB] at h
+  injection h with h1 _
+  subst h1
+  have hreg : ∀ nv ∈ params, ∀ r, lookupCI b nv.1 = some r → dvB'.readReg r = nv.2 := by
+    intro nv hnv r hr
+    rw [hsame.readReg r]
+    exact setFold_readReg b params dv dvF hF hinj nv hnv r hr
+  refine ⟨hreg, ?_⟩
+  intro hb
+  have hb' : ∀ n ∈ params.map Prod.fst, (lookupCI b n).isSome := by
+    intro n hn
+    obtain ⟨nv, hnv, rfl⟩ := List.mem_map.1 hn
+    exact hb nv hnv
+  have hinj' : ∀ n1 ∈ params.map Prod.fst, ∀ n2 ∈ params.map Prod.fst, lookupCI b n1 = lookupCI b n2 → n1 = n2 := by
+    intro n1 h1 n2 h2 he
+    obtain ⟨p, hp, rfl⟩ := List.mem_map.1 h1
+    obtain ⟨q, hq, rfl⟩ := List.mem_map.1 h2
+    rw [hinj p hp q hq he]
+  obtain ⟨dvG, resG, _, _, g1, _, g3, _, _, g6⟩ := (batch_get_eq_single b dvB' (params.map Prod.fst)).1 hb' hinj'
+  refine ⟨dvG, resG, g1, g3, ?_⟩
+  intro nv hnv
+  have hmem : nv.1 ∈ params.map Prod.fst := List.mem_map_of_mem (f := Prod.fst) hnv
+  rw [g6 nv.1, if_pos hmem]
+  obtain ⟨r, hr⟩ := Option.isSome_iff_exists.1 (hb nv hnv)
+  rw [hr]
+  simp only [Option.map_some]
+  rw [hreg nv hnv r hr]
+
+/-! ## 4c. Tables configured by hand, and the process-start path -/
+
+/-- keys are pairwise different even ignoring case -/
+private def CIInj (p : Dict Str Desc) : Prop :=
+  ∀ k1 d1 k2 d2, (k1, d1) ∈ p → (k2, d2) ∈ p → upper k1 = upper k2 → k1 = k2
+
+private theorem cfgInsert_spec (items : List (Str × Desc)) (p0 p : Dict Str Desc)
+    (hn : (dictKeys p0).Nodup) (hci : CIInj p0) (h : cfgInsert p0 items = .ok p) :
+    (dictKeys p).Nodup ∧ CIInj p ∧ (∀ nd ∈ items, dictGet p nd.1 = some nd.2) ∧
+    (∀ n d, dictGet p0 n = some d → dictGet p n = some d) ∧
+    (∀ n d, dictGet p n = some d → dictGet p0 n = some d ∨ (n, d) ∈ items) := by
+  induction items generalizing p0 with
+  | nil =>
+    simp only [cfgInsert] at h
+    injection h with h; subst h
+    exact ⟨hn, hci, by simp, fun _ _ h => h, fun _ _ h => Or.inl h⟩
+  | cons nd rest ih =>
+    obtain ⟨n, d⟩ := nd
+    simp only [cfgInsert] at h
+    split at h
+    · simp at h
+    · rename_i hfree
+      have hfresh : ∀ k x, (k, x) ∈ p0 → upper n ≠ upper k := by
+        intro k x hm hu
+        exact hfree (lookupCI_isSome_of_mem p0 n k x hm hu)
+      have hnone : dictGet p0 n = none := by
+        cases hg : dictGet p0 n with
+        | none => rfl
+        | some x => exact absurd rfl (hfresh n x (dictGet_mem _ _ _ hg))
+      have hci' : CIInj (dictSet p0 n d) := by
+        intro k1 d1 k2 d2 m1 m2 hu
+        rcases mem_dictSet p0 n d _ m1 with e1 | e1 <;> rcases mem_dictSet p0 n d _ m2 with e2 | e2
+        · injection e1 with a1 _; injection e2 with a2 _; rw [a1, a2]
+        · injection e1 with a1 _; subst a1; exact absurd hu (hfresh k2 d2 e2)
+        · injection e2 with a2 _; subst a2; exact absurd hu.symm (hfresh k1 d1 e1)
+        · exact hci k1 d1 k2 d2 e1 e2 hu
+      obtain ⟨i1, ic, i2, i3, i4⟩ := ih (dictSet p0 n d) (dictKeys_nodup_dictSet _ _ _ hn) hci' h
+      refine ⟨i1, ic, ?_, ?_, ?_⟩
+      · intro nd hnd
+        rcases List.mem_cons.1 hnd with rfl | hnd
+        · exact i3 n d (dictGet_dictSet_self _ _ _)
+        · exact i2 nd hnd
+      · intro m x hm
+        apply i3
+        rw [dictGet_dictSet]
+        by_cases e : n = m
+        · subst e; rw [hnone] at hm; simp at hm
+        · simp [e, hm]
+      · intro m x hm
+        rcases i4 m x hm with h1 | h1
+        · rw [dictGet_dictSet] at h1
+          by_cases e : n = m
+          · subst e
+            simp only [if_true] at h1
+            injection h1 with h1
+            subst h1
+            exact Or.inr List.mem_cons_self
+          · simp only [e, if_false] at h1
+            exact Or.inl h1
+        · exact Or.inr (List.mem_cons_of_mem _ h1)
+
+/-- **config_table_spec** (case-insensitive uniqueness since fix e4893fe). `ProgramInfo.from_config` with
+explicitly configured parameters builds exactly the table the three configuration sections describe; its
+names are pairwise different even ignoring letter case, so every spelling of a configured name resolves to
+that name's own register.  (Two configured names may still share a register — the configuration path has no
+such check; the batch theorems of section 3 do not need it.) -/
+theorem config_table_spec (par fpar : Dict Str Nat) (parArray : Dict Str (Nat × Nat)) (p : Dict Str Desc)
+    (h : fromConfig par fpar parArray = .ok p) :
+    (dictKeys p).Nodup ∧ (∀ n d, dictGet p n = some d ↔ (n, d) ∈ cfgItems par fpar parArray) ∧
+    (∀ key d name, dictGet p key = some d → upper name = upper key → lookupCI p name = some d) := by
+  obtain ⟨h1, hc, h2, _, h4⟩ := cfgInsert_spec _ [] p (by simp [dictKeys]) (by intro _ _ _ _ m; simp at m) h
+  refine ⟨h1, fun n d => ⟨?_, fun hm => h2 (n, d) hm⟩, ?_⟩
+  · intro hg
+    rcases h4 n d hg with h0 | h0
+    · simp [dictGet] at h0
+    · exact h0
+  · intro key d name hk hu
+    have hm := dictGet_mem _ _ _ hk
+    obtain ⟨d', hd'⟩ := Option.isSome_iff_exists.1 (lookupCI_isSome_of_mem p name key d hm hu)
+    obtain ⟨key', hm', hu'⟩ := lookupCI_some p name d' hd'
+    have : key' = key := hc key' d' key d hm' hm (hu'.symm.trans hu)
+    subst this
+    rw [hd', ← dictGet_of_mem_nodup p key' d' h1 hm', hk]
+
+/-- historical example (constants; the input of the repaired finding `…:configured-table`):
+`par = {bar: 80}`, `fpar = {Bar: 80}` is now rejected, naming `Bar` -/
+example : (match fromConfig [("bar".toList, 80)] [("Bar".toList, 80)] [] with
+    | .error n => n == "Bar".toList
+    | .ok _ => false) = true := by decide +kernel
+
+/-- **start_with_params_touches_every_parameter.** The parameter part of `start_with_params(**kwargs)`:
+a successful call writes exactly the registers of *all* bound names (zero-fill for names without keyword)
+and nothing else. -/
+theorem start_with_params_touches_every_parameter (b : Dict Str Desc) (dv dvB : Dev) (kwargs : Dict Str Val)
+    (h : setParMultiple b dv (startParams b kwargs) = ⟨dvB, .ok ()⟩) :
+    ∃ L, dvB.log = L ++ dv.log ∧ ∀ r, touchedBy L r ↔ ∃ key ∈ dictKeys b, lookupCI b key = some r := by
+  obtain ⟨L, h1, h2⟩ := (touches_exactly_bound_registers b dv).2 (startParams b kwargs) dvB h
+  refine ⟨L, h1, fun r => ?_⟩
+  rw [h2 r]
+  simp only [startParams, dictKeys, List.mem_map]
+  constructor
+  · rintro ⟨nv, ⟨kv, hkv, rfl⟩, hl⟩
+    exact ⟨kv.1, ⟨kv, hkv, rfl⟩, hl⟩
+  · rintro ⟨key, ⟨kv, hkv, rfl⟩, hl⟩
+    exact ⟨_, ⟨kv, hkv, rfl⟩, hl⟩
 
 /-! ## 5. The include walk -/
 
